@@ -104,14 +104,38 @@ Print Assumptions C10_reader_file_shipped.
     Three families of text that is not a grammar, each refused by peg.peg's own rule tree under the reference
     semantics (the rule Grammar fails) and hence, by [C10_rejected_by_shipped_parser], by the parser that is
     shipped (Parse() returns an error): a well-formed file followed by a character that starts nothing - a closing
-    bracket, '=', ',', ';', '|', a non-ASCII character ... - (a rule ends only before another rule or at the end of
-    the text); a text whose first token after comments and blank lines is not the word "package" (the empty text
+    bracket, '=', ',', ';', '|', a non-ASCII character ... -, by a literal, group, capture, action or class that is opened and
+    never closed (a rule ends only before another rule or at the end of the text); a text whose first token after comments and blank lines is not the word "package" (the empty text
     and a text of comments only included); a text with no rule behind the parser type. *)
 Theorem C10_rejects_trailing_text :
   forall penv f c m, file_ok f -> junk_head c = true ->
   exists n evs, peg_ev pegpeg_d pegpeg_d_ptx (fshow f ++ c :: m) penv n (EName pr_Grammar) 0 = Some (Fail, evs).
 Proof. intros penv f c m Hf Hj. exact (grammar_rejects_trailing _ penv f c m Hf Hj eq_refl). Qed.
 Print Assumptions C10_rejects_trailing_text.
+
+(** ... or by a literal that is opened and never closed (a single or a double quote with no second one in the rest
+    of the text): however the characters behind the quote are read, the closing quote is not found; every parsing
+    expression of the rule tree has a result (Proofs/Total.v), so nothing is assumed about them. *)
+Theorem C10_rejects_unclosed_literal :
+  forall penv f c s, file_ok f -> c = 39 \/ c = 34 -> ~ In c s ->
+  exists n evs, peg_ev pegpeg_d pegpeg_d_ptx (fshow f ++ c :: s) penv n (EName pr_Grammar) 0 = Some (Fail, evs).
+Proof. intros penv f c s Hf Hc Hn. exact (grammar_rejects_unclosed_quote _ penv f c s Hf Hc Hn eq_refl). Qed.
+Print Assumptions C10_rejects_unclosed_literal.
+
+(** ... or by a group, a capture, an action or a class that is opened and never closed *)
+Theorem C10_rejects_unclosed_bracket :
+  forall penv f o s, file_ok f ->
+  (o = 40 /\ ~ In 41 s) \/ (o = 60 /\ ~ In 62 s /\ head_ne 45 s) \/ (o = 123 /\ ~ In 125 s) \/ (o = 91 /\ ~ In 93 s) ->
+  exists n evs, peg_ev pegpeg_d pegpeg_d_ptx (fshow f ++ o :: s) penv n (EName pr_Grammar) 0 = Some (Fail, evs).
+Proof. intros penv f o s Hf Ho. exact (grammar_rejects_unclosed_bracket _ penv f o s Hf Ho eq_refl). Qed.
+Print Assumptions C10_rejects_unclosed_bracket.
+
+(** ... or by a prefix operator with nothing to apply to: & or ! and then only blanks and comments to the end *)
+Theorem C10_rejects_dangling_prefix :
+  forall penv f o l, file_ok f -> o = 38 \/ o = 33 -> lay l ->
+  exists n evs, peg_ev pegpeg_d pegpeg_d_ptx (fshow f ++ o :: l) penv n (EName pr_Grammar) 0 = Some (Fail, evs).
+Proof. intros penv f o l Hf Ho Hl. exact (grammar_rejects_dangling_prefix _ penv f o l Hf Ho Hl eq_refl). Qed.
+Print Assumptions C10_rejects_dangling_prefix.
 
 Theorem C10_rejects_text_without_package :
   forall penv hdr tl, header_ok hdr tl -> stop tl -> (forall r, tl <> kw_package ++ r) ->
@@ -133,10 +157,14 @@ Theorem C10_rejected_by_shipped_parser :
 Proof. exact rejected_shipped. Qed.
 Print Assumptions C10_rejected_by_shipped_parser.
 
-(** non-vacuity: the sample file followed by ")" ; "type T Peg {}" alone; the sample's head with nothing behind *)
+(** non-vacuity: the sample file followed by ")" and by "'ab" and by "('a' x" ; "type T Peg {}" alone; the sample's head with nothing behind *)
 Example C10_reject_nonvacuous :
   junk_head 41 = true /\ junk_head 61 = true /\ junk_head 233 = true /\ junk_head 97 = false /\ junk_head 32 = false /\
   fst (match peg_ev pegpeg_d pegpeg_d_ptx (fshow sample_file ++ [41]) (fun _ _ => false) 1500 (EName pr_Grammar) 0 with
+       | Some r => r | None => (Succ 0 [], []) end) = Fail /\
+  fst (match peg_ev pegpeg_d pegpeg_d_ptx (fshow sample_file ++ [40; 39; 97; 39; 32; 120; 10]) (fun _ _ => false) 1500 (EName pr_Grammar) 0 with
+       | Some r => r | None => (Succ 0 [], []) end) = Fail /\
+  fst (match peg_ev pegpeg_d pegpeg_d_ptx (fshow sample_file ++ [39; 97; 98; 10]) (fun _ _ => false) 1500 (EName pr_Grammar) 0 with
        | Some r => r | None => (Succ 0 [], []) end) = Fail /\
   fst (match peg_ev pegpeg_d pegpeg_d_ptx [116; 121; 112; 101; 32; 84; 32; 80; 101; 103; 32; 123; 125] (fun _ _ => false) 300 (EName pr_Grammar) 0 with
        | Some r => r | None => (Succ 0 [], []) end) = Fail /\
@@ -183,6 +211,13 @@ Example C10_effects_nonvacuous :
   eff_tab pr_Expression = Some (mkeff [] [KAny] false (Some false)) /\
   eff_tab pr_Char = Some (mkeff [] [KChr] false (Some false)).
 Proof. vm_compute. repeat split; reflexivity. Qed.
+
+(** a text that stops inside the parser's state - "type T Peg {" opened and never closed - is refused *)
+Theorem C10_rejects_unclosed_state :
+  forall penv f T, head_ok f -> ~ In 125 T ->
+  exists n evs, peg_ev pegpeg_d pegpeg_d_ptx (pre_text f ++ kw_Peg ++ f_s3 f ++ 123 :: T) penv n (EName pr_Grammar) 0 = Some (Fail, evs).
+Proof. intros penv f T Hf HT. exact (grammar_rejects_unclosed_state _ penv f T Hf HT eq_refl). Qed.
+Print Assumptions C10_rejects_unclosed_state.
 
 (** the lexical layer on its own: any layout is skipped; every spelling of a character is read as its call *)
 Theorem C10_reader_spacing :
